@@ -79,7 +79,7 @@ def hdrOverride : Hdr → Option Bool
   | .absent => none
   | .val v => some (v == ['t', 'r', 'u', 'e'])
 
-/-- Exceptions that escape `is_allowed`. -/
+/-- Exceptions raised inside the classification (caught by `_is_external`). -/
 inductive DecExc where
   | addressValue    -- `ipaddress.AddressValueError` from `IPv4Address(ip)`
   | unicode         -- `UnicodeError` from `gethostbyname`
@@ -106,15 +106,17 @@ def isExternalDomain (cfg : Cfg) (h : Str) : Except DecExc (Option Bool) :=
 def isExternalRaw (cfg : Cfg) (h : Str) : Except DecExc (Option Bool) :=
   if validateIp h then (isExternalIp h).map some else isExternalDomain cfg h
 
-/-- `_is_external` (cache consulted first; unresolvable answers are not stored). -/
-def isExternal (cfg : Cfg) (c : Cache) (h : Str) : Except DecExc (Bool × Cache) :=
+/-- `_is_external` (cache consulted first; unresolvable answers are not stored).  A `ValueError`
+    raised by the classification (`AddressValueError`, `UnicodeError`) is caught: the destination
+    is answered "not external" and nothing is stored. -/
+def isExternal (cfg : Cfg) (c : Cache) (h : Str) : Bool × Cache :=
   match cacheGet c h with
-  | some b => .ok (b, c)
+  | some b => (b, c)
   | none =>
     match isExternalRaw cfg h with
-    | .error e => .error e
-    | .ok none => .ok (false, c)
-    | .ok (some b) => .ok (b, (h, b) :: c)
+    | .error _ => (false, c)
+    | .ok none => (false, c)
+    | .ok (some b) => (b, (h, b) :: c)
 
 /-- `_check_blocked` (True = not blocked). -/
 def checkBlocked (f : Filter) (h : Str) : Bool :=
@@ -123,15 +125,15 @@ def checkBlocked (f : Filter) (h : Str) : Bool :=
   | some [] => true
   | some bl => !bl.contains h
 
-/-- `is_allowed`. -/
-def isAllowed (cfg : Cfg) (f : Filter) (c : Cache) (h : Str) (hdr : Hdr) : Except DecExc (Bool × Cache) :=
-  if !f.valid then .ok (false, c) else
+/-- `is_allowed` (total: it never raises). -/
+def isAllowed (cfg : Cfg) (f : Filter) (c : Cache) (h : Str) (hdr : Hdr) : Bool × Cache :=
+  if !f.valid then (false, c) else
   match hdrOverride hdr with
-  | some b => .ok (b, c)
+  | some b => (b, c)
   | none =>
     match f.allow with
-    | some al => .ok (al.contains h, c)
-    | none => if checkBlocked f h then isExternal cfg c h else .ok (false, c)
+    | some al => (al.contains h, c)
+    | none => if checkBlocked f h then isExternal cfg c h else (false, c)
 
 /-! ### Circuit breaker and hook protocol -/
 
@@ -169,7 +171,6 @@ deriving Repr, DecidableEq
 inductive Result where
   | respGw
   | respDirect
-  | raiseDec (e : DecExc)
   | raiseGwApp
   | raiseDirectApp
 deriving Repr, DecidableEq
@@ -222,9 +223,8 @@ def call (cfg : Cfg) (s : St) (c : CallIn) : St × CallOut :=
   let s1 := stateOk cfg s
   if s1.ok then
     match isAllowed cfg (mkFilter cfg) s1.cache c.host c.hdr with
-    | .error e => (s1, ⟨[], .raiseDec e⟩)                 -- `__exit__` returns False
-    | .ok (true, cache) => gwLeg cfg { s1 with cache := cache } c
-    | .ok (false, cache) => directLeg { s1 with cache := cache, cnt := 0 } [] c
+    | (true, cache) => gwLeg cfg { s1 with cache := cache } c
+    | (false, cache) => directLeg { s1 with cache := cache, cnt := 0 } [] c
   else directLeg { s1 with cnt := 0 } [] c
 
 /-- Inputs of a run: clock advances and calls. -/
